@@ -19,7 +19,7 @@ HARD_TIMEOUT = {'quick': 900, 'thorough': 3000}
 
 def bounds(tier):
     return {'step count n': '0..%d' % NMAX, 'interval': 'symbolic start <= end (zero length and sub-ranges included), symbolic dt > 0',
-            'trajectories': 'PPolyND<1,dyn> and <2,dyn>, 1..2 segments, 4 coefficients, symbolic', 'length / batch parts': 'n <= 3',
+            'trajectories': 'PPolyND<1,dyn> and <2,dyn>, 1..3 segments (so that one step can cross two breakpoints), 4 coefficients, symbolic', 'length / batch parts': 'n <= 3 (n <= 2 for 3 segments)',
             'factories': '|breakpoints| in {2,3,5}, coefficient counts {default,1,4,9}, derivative orders 0..2 and beyond'}
 
 
@@ -32,8 +32,11 @@ def tasks(tier, seed):
     T = [{'name': 'timeseq explicit', 'fn': 'run_seq', 'route': 'explicit', 'seed': seed, 'timeout': to},
          {'name': 'timeseq whole', 'fn': 'run_seq', 'route': 'whole', 'seed': seed, 'timeout': to}]
     for dim in (1, 2):
+        for N in (1, 2, 3):
+            if N == 3 and dim == 2 and tier == 'quick':
+                continue
+            T.append({'name': 'length d%d N%d' % (dim, N), 'fn': 'run_len', 'dim': dim, 'N': N, 'nmax': 3 if N < 3 else 2, 'seed': seed, 'timeout': to})
         for N in (1, 2):
-            T.append({'name': 'length d%d N%d' % (dim, N), 'fn': 'run_len', 'dim': dim, 'N': N, 'seed': seed, 'timeout': to})
             T.append({'name': 'batch d%d N%d' % (dim, N), 'fn': 'run_batch', 'dim': dim, 'N': N, 'seed': seed, 'timeout': to})
         for nb in (2, 3, 5):
             for m in (-1, 1, 4, 9):
@@ -166,11 +169,12 @@ def run_len(t):
             s.add('pp.evalopt P Q%d 1 v%d' % (i, i))
             s.add('pp.norm nrm%d' % i, *['v%d.%d' % (i, d) for d in range(dim)])
         assume = seq_assume(N, route == 'explicit')
-        ex = P.Explorer(tu, s, assume, max_paths=600, int_choices=range(0, 4), timeout=20, nonlinear=True, budget_s=240)
+        nmax = t.get('nmax', 3)
+        ex = P.Explorer(tu, s, assume, max_paths=1500, int_choices=range(0, nmax + 1), timeout=20, nonlinear=True, budget_s=400)
         for (dec, g, enc0, sh) in ex.paths():
             n_path = [f for f in g.path if f[0] == 'floorint'][0][3]
             n = g.ints['q.n']
-            if n_path < 0 or n_path > 3 or n > 5:
+            if n_path < 0 or n_path > nmax or n > 5:
                 continue
             sc = O.Scenario(ID, '%s %s n=%d len=%d path#%d' % (t['name'], route, n_path, n, len(out)), tu, s, decisions=dec, timeout=t['timeout'], dag=g, shadow_override=sh,
                             enc_kwargs={'sqrt_opaque': True})
